@@ -4,9 +4,10 @@
    * the DRIVER theorems say that, in the model of the code as it is now, InteractiveContext.step(), a manual
      SimulationContext.step() and the step executed inside run() are the same function of the schedule state, for
      EVERY behaviour of the components ([react], [req] arbitrary) - and that this is false for the two pre-fix variants;
-   * run() is exactly "steps until the clock reaches the stop time"; run_until/run_for/InteractiveContext.run agree with
-     it when the global step is constant, and are shown NOT to agree in general with per-simulant clocks
-     ([run_until_variable_step_differs]: new finding F-AB, replay on the real code: corpus/C01/FAB_demo.py);
+   * run() is exactly "steps until the clock reaches the stop time"; InteractiveContext.run_until(stop)/run() is the
+     same loop for EVERY component behaviour incl. per-simulant clocks, run_for(d) = run_until(clock + d)
+     (the code before 98b7435f counted its iterations once from the current step and is refuted:
+     [run_until_old_variable_step_differs], finding F-AB, replay /verif/fixes/FAB_demo.py);
    * the RESUME theorems say only that the model's step function has no memory outside [sim_state];
    * the CHANNEL lemmas say that the set-iteration orders the code is exposed to cannot change a successful update,
      a table read as a map, or a stratification tuple.
@@ -147,7 +148,7 @@ Section Drivers.
     rewrite (steps_add f k n s sk e1 Hk). rewrite Hs. reflexivity.
   Qed.
 
-  (* ---- constant global step: run_until(stop) = run() ---- *)
+  (* ---- InteractiveContext.run_until(stop) = run(), for every behaviour of the components ---- *)
   Lemma apply_reaction_clock s r :
     T (apply_reaction s r) = T s /\ S (apply_reaction s r) = S s /\ E (apply_reaction s r) = E s /\
     m (apply_reaction s r) = m s /\ indiv (apply_reaction s r) = indiv s.
@@ -166,6 +167,68 @@ Section Drivers.
       rewrite H1, H2, H3, H4, H5. apply apply_reaction_clock.
   Qed.
 
+  Lemma step_forward_E idx s s' : step_forward req idx s = Ok s' -> E s' = E s.
+  Proof.
+    unfold step_forward. destruct (indiv s && negb match idx with [] => true | _ => false end).
+    - destruct (filter _ (rows s)); [intros H; inversion H; reflexivity|].
+      destruct (forallb _ (snooze s)); intros H; inversion H; reflexivity.
+    - intros H; inversion H; reflexivity.
+  Qed.
+
+  Lemma engine_step_E v c s s' evs : estep v c s = Ok (s', evs) -> E s' = E s.
+  Proof.
+    unfold engine_step. destruct (emit_events react v c [0; 1; 2; 3] s) as [s1 e1] eqn:He.
+    apply emit_events_clock in He. destruct He as [_ [_ [H3 _]]].
+    destruct (step_forward req (pop_index v c s1) s1) as [s2| |] eqn:Hf; try discriminate.
+    intros H; inversion H; subst. apply step_forward_E in Hf. congruence.
+  Qed.
+
+  Lemma loop_until_ext f g : (forall s, f s = g s) -> forall e fuel s, loop_until f e fuel s = loop_until g e fuel s.
+  Proof.
+    intros H e fuel. induction fuel as [|fuel IH]; intros s; simpl; [reflexivity|].
+    destruct (T s <? e); [|reflexivity]. rewrite H. destruct (g s) as [[s1 e1]| |]; try reflexivity.
+    rewrite IH. reflexivity.
+  Qed.
+
+  Lemma loop_until_run_loop f : (forall s s' evs, f s = Ok (s', evs) -> E s' = E s) ->
+    forall fuel s e, e = E s -> loop_until f e fuel s = run_loop f fuel s.
+  Proof.
+    intros HE. induction fuel as [|fuel IH]; intros s e He; subst e; simpl; [reflexivity|].
+    destruct (T s <? E s); [|reflexivity]. destruct (f s) as [[s1 e1]| |] eqn:Hf; try reflexivity.
+    rewrite (IH s1 (E s)); [reflexivity|]. symmetry. eapply HE; eauto.
+  Qed.
+
+  (* InteractiveContext.run() / run_until(stop_time) and SimulationContext.run(): same final state, same schedule -
+     whatever the components do, per-simulant clocks included (true since 98b7435f) *)
+  Theorem run_until_eq_run fuel s :
+    run_interactive react req current fuel s = run_loop (step_run react req current) fuel s.
+  Proof.
+    unfold run_interactive, run_until.
+    rewrite (loop_until_ext _ (step_run react req current)).
+    - apply loop_until_run_loop; [|reflexivity]. intros s0 s' evs. apply engine_step_E.
+    - intro s0. destruct (driver_step_eq s0) as [H1 H2]. congruence.
+  Qed.
+
+  Theorem run_for_is_run_until d fuel s :
+    run_for react req current d fuel s = run_until react req current (T s + d) fuel s.
+  Proof. reflexivity. Qed.
+
+  (* run_until(e) for ANY end time: exactly the steps taken while the clock is before e *)
+  Lemma loop_until_sound f e : forall fuel s s' evs, loop_until f e fuel s = Ok (s', evs) ->
+    exists n, (n <= fuel)%nat /\ steps f n s = Ok (s', evs) /\ e <= T s'.
+  Proof.
+    induction fuel as [|fuel IH]; intros s s' evs H; simpl in H.
+    - destruct (T s <? e) eqn:Hlt; [discriminate|]. inversion H; subst. exists O.
+      repeat split; simpl; auto. apply Z.ltb_ge. exact Hlt.
+    - destruct (T s <? e) eqn:Hlt.
+      + destruct (f s) as [[s1 e1]| |] eqn:Hf; try discriminate.
+        destruct (loop_until f e fuel s1) as [[s2 e2]| |] eqn:Hr; try discriminate.
+        inversion H; subst. destruct (IH _ _ _ Hr) as [n [Hn [Hs HE]]].
+        exists (Datatypes.S n). simpl. rewrite Hf, Hs. repeat split; auto. lia.
+      + inversion H; subst. exists O. repeat split; simpl; auto; [lia | apply Z.ltb_ge; exact Hlt].
+  Qed.
+
+  (* ---- the pre-98b7435f run_until, constant global step: equal to run() ---- *)
   Lemma engine_step_noindiv v c s : indiv s = false ->
     exists s2 evs, estep v c s = Ok (s2, evs) /\ T s2 = T s + S s /\ S s2 = S s /\ E s2 = E s /\ indiv s2 = false.
   Proof.
@@ -202,12 +265,12 @@ Section Drivers.
     apply IH; auto; [lia|]. intros Hn. rewrite HT, HS, HE. nia.
   Qed.
 
-  Theorem run_until_const s : indiv s = false -> 0 < S s -> T s - S s < E s ->
+  Theorem run_until_old_const s : indiv s = false -> 0 < S s -> T s - S s < E s ->
     forall fuel, (Z.to_nat (cdiv (E s - T s) (S s)) <= fuel)%nat ->
-    run_interactive react req current s = run_loop (step_run react req current) fuel s /\
-    exists s' evs, run_interactive react req current s = Ok (s', evs).
+    run_interactive_old react req current s = run_loop (step_run react req current) fuel s /\
+    exists s' evs, run_interactive_old react req current s = Ok (s', evs).
   Proof.
-    intros Hi Hpos Hstart fuel Hfuel. unfold run_interactive, run_until.
+    intros Hi Hpos Hstart fuel Hfuel. unfold run_interactive_old, run_until_old.
     assert (Hz : (S s =? 0) = false) by (apply Z.eqb_neq; lia). rewrite Hz.
     set (n := Z.to_nat (cdiv (E s - T s) (S s))) in *.
     destruct (driver_equiv n s) as [Hd1 Hd2]. rewrite Hd1, Hd2.
@@ -256,7 +319,7 @@ Lemma step_eq_refuted_before_FB :
   exists react req s, step_interactive react req before_FB s <> step_manual react req before_FB s.
 Proof. exists no_react, req_23, wit_FB. vm_compute. discriminate. Qed.
 
-(* with per-simulant clocks the global step varies, and run_until's iteration count (computed once, from the current
+(* THE CODE BEFORE 98b7435f.  With per-simulant clocks the global step varies, and the old run_until's iteration count (computed once, from the current
    step) is wrong: here run() stops at T = 4 after 3 steps, InteractiveContext.run() silently takes a 4th step to
    T = 5 (its closing assertion passes because the NEW step is 2). *)
 Definition wit_var : sim_state :=
@@ -270,13 +333,20 @@ Definition res_events (r : result (sim_state * list event)) : option nat :=
 Definition res_rows (r : result (sim_state * list event)) : option nat :=
   match r with Ok (s, _) => Some (length (rows s)) | _ => None end.
 
-Lemma run_until_variable_step_differs :
+Lemma run_until_old_variable_step_differs :
   exists react req s,
     res_T (run_loop (step_run react req current) 10 s) = Some 4 /\
-    res_T (run_interactive react req current s) = Some 5 /\
+    res_T (run_interactive_old react req current s) = Some 5 /\
     res_events (run_loop (step_run react req current) 10 s) = Some 12%nat /\
-    res_events (run_interactive react req current s) = Some 16%nat.
+    res_events (run_interactive_old react req current s) = Some 16%nat.
 Proof. exists no_react, req_parity, wit_var. vm_compute. repeat split; reflexivity. Qed.
+
+(* ... and the repaired loop agrees with run() on that very witness: 3 steps, clock 4 *)
+Example run_until_new_agrees_on_witness :
+  run_interactive no_react req_parity current 10 wit_var = run_loop (step_run no_react req_parity current) 10 wit_var /\
+  res_T (run_interactive no_react req_parity current 10 wit_var) = Some 4 /\
+  res_events (run_interactive no_react req_parity current 10 wit_var) = Some 12%nat.
+Proof. vm_compute. repeat split; reflexivity. Qed.
 
 (* non-vacuity of the positive theorems: a concrete 2-simulant schedule with a birth, steps 2 and 3 *)
 Definition react_birth : sim_state -> event -> reaction :=
